@@ -16,6 +16,11 @@ PROPS["C07"] = {
         "where tools disagree, no hyphens inside SemVer identifiers, rpm pairs with a release on both sides or neither, apk pairs with "
         "equal numbers of numeric components, no commit hash and -rN on both sides or neither, Composer x.y.z with one stability suffix); "
         "every reference is first checked against the repository's own fixture lines that fall inside the canonical grammar",
+        "letter case: about one triple in six and one canonical pair in nine of the ecosystems whose grammar has letters is a case variant "
+        "(b = a with the case of one or all letters changed; classes triple.case_variant / canon.case_variant); references treat case as published: "
+        "bytewise for SemVer identifiers, Gem::Version, dpkg and rpmvercmp, case-insensitive for NuGet, Maven qualifiers and PEP 440; Alpine has no "
+        "upper-case letters in its grammar; canonical Packagist keeps only the RC/rc spellings (PHP version_compare and Composer disagree on other "
+        "upper-case stability words); deps.dev is not consulted for RubyGems or PyPI strings with upper-case letters (it lower-cases gems)",
         "ecosystems are drawn uniformly: per-ecosystem counts are the per-leg counts divided by 16",
     ],
     "engine": "rapid",
